@@ -650,8 +650,19 @@ func (g *GenState) genOp(h *Hist) Op {
 				g.plan = g.plan[1:]
 			}
 		}
+		if len(g.plan) == 0 && len(h.model.Live) > 0 && len(h.ops) > 6 && r.Chance(0.04) {
+			// everything deleted (a single empty segment that only keeps the next offset), then a
+			// backup through a read-only handle
+			g.plan = []string{"delete-all", "backup-ro"}
+		}
 		if len(g.plan) > 0 {
 			kind, g.plan = g.plan[0], g.plan[1:]
+			switch kind {
+			case "delete-all":
+				return Op{Kind: "delete", Note: "everything", Variant: "multi", Offsets: g.genDeleteSet(h.model, lay, "everything")}
+			case "backup-ro":
+				return Op{Kind: "backup", Variant: "method-ro"}
+			}
 			if kind == "reopen-noindex" {
 				o := g.genOpenOpts(h.cfg, h.everNonDec)
 				o.Eager = false
@@ -695,7 +706,7 @@ func (g *GenState) genOp(h *Hist) Op {
 		}
 		return op
 	case "backup":
-		return Op{Kind: "backup", Variant: pick(r, []string{"method", "package"})}
+		return Op{Kind: "backup", Variant: pick(r, []string{"method", "package", "method-ro", "method"})}
 	case "rosession":
 		return Op{Kind: "rosession"}
 	}
